@@ -8,7 +8,10 @@ git -C /repo worktree add --detach -q "$WT" HEAD || exit 2
 cd "$WT" || exit 2
 export PYTHONPATH="$WT/src" PYTHONDONTWRITEBYTECODE=1
 /venv/bin/python "$SRC/demo.py" >/tmp/vs/$NAME.pristine.log 2>&1; P=$?
-if ! git apply "$SRC/patch.diff" 2>/tmp/vs/$NAME.apply.log; then echo "$NAME apply=FAILED"; git -C /repo worktree remove --force "$WT"; exit 1; fi
+if ! git apply "$SRC/patch.diff" 2>/tmp/vs/$NAME.apply.log; then
+  if ! patch -p1 --fuzz=3 < "$SRC/patch.diff" >>/tmp/vs/$NAME.apply.log 2>&1; then echo "$NAME apply=FAILED"; cd /; git -C /repo worktree remove --force "$WT"; exit 1; fi
+  find . -name "*.orig" -delete
+fi
 /venv/bin/python "$SRC/demo.py" >/tmp/vs/$NAME.patched.log 2>&1; M=$?
 /venv/bin/python -m pytest -q -p no:cacheprovider --timeout=900 -x >/tmp/vs/$NAME.tests.log 2>&1; T=$?
 echo "$NAME demo_pristine_rc=$P demo_patched_rc=$M tests_rc=$T $(tail -1 /tmp/vs/$NAME.tests.log)"
